@@ -696,8 +696,9 @@ def lgpl_aliases():
 
 
 class Translator:
-    def __init__(self, defines=(), own_files=(), prefix="", search=None, consts=None):
+    def __init__(self, defines=(), own_files=(), prefix="", search=None, consts=None, opaque=()):
         global ALIASES
+        self.opaque = set(opaque)
         ALIASES = dict(lgpl_aliases(), **ALIASES_STATIC)
         self.texts = {}
         self.pp_unknown = []
@@ -721,6 +722,8 @@ class Translator:
         self.ltypes = {}
         self.api = api_defaults()
         self.memlocals = set()
+        self.structparams = set()
+        self.struct_locals = set()
         self.goto_labels = set()
         self.loop_depth = 0
         self.loop_labels = []
@@ -771,6 +774,7 @@ class Translator:
                 self.ltypes[ids[-1]] = " ".join(x for x in ids[:-1] if x not in ("const", "volatile"))
                 self.lptr[ids[-1]] = p.count("*")
         saved = (self.locals, self.tmpn, self.memlocals)
+        saved_sp = (self.structparams, self.struct_locals)
         self.cur_params = list(params)
         self.locals, self.tmpn, self.memlocals = set(params), 0, set()
         self.inprogress.append(name)
@@ -782,7 +786,9 @@ class Translator:
             if mac:
                 toks = expand_macros(toks, mac)
             ast = Parser(toks, self).block()
-            self.memlocals = (set(address_taken(ast)) | set(declmacro_names(ast))) & self.locals
+            self.memlocals = (set(address_taken(ast)) | set(declmacro_names(ast)) | (set(dot_locals(ast)) - set(params))) & self.locals
+            self.structparams = set(dot_locals(ast)) & set(params)
+            self.struct_locals = set(dot_locals(ast)) - set(params)
             if self.memlocals & set(params):
                 raise Unsupported("address of a parameter")
             stmts = self.stmt(ast)
@@ -795,6 +801,7 @@ class Translator:
             raise Unsupported("%s (%s): %s" % (name, f, e))
         finally:
             self.inprogress.pop()
+            self.structparams, self.struct_locals = saved_sp
             self.cur_file = saved_file
             self.cur_params = saved_params
             self.goto_labels, self.loop_depth = saved_g
@@ -815,6 +822,8 @@ class Translator:
         k = e[0]
         if k == "id":
             if e[1] in self.locals:
+                if e[1] in self.structparams:
+                    return [], ".var %s" % lstr(e[1])        # a struct passed by value: represented by its address
                 if e[1] in self.memlocals:
                     return [], ".addrGlob %s" % lstr("&" + e[1])
                 raise Unsupported("address of local %s" % e[1])
@@ -1072,7 +1081,7 @@ class Translator:
             return pre + [".prim none .%s [%s]" % (prim, ", ".join(vals))], None
         args = [a for a in args if not (a[0] == "id" and a[1] in MO_NAMES)]
         saved = (self.locals, self.tmpn)
-        if name not in OPAQUE and self.function(name):
+        if name not in OPAQUE and name not in self.opaque and self.function(name):
             self.locals, self.tmpn = saved
             params = self.defs[name][0]
             if len(params) != len(args):
@@ -1318,6 +1327,8 @@ class Translator:
         if k == "return":
             if s[1] is None:
                 return [".ret none"]
+            if s[1][0] == "id" and s[1][1] in self.memlocals and s[1][1] in self.struct_locals:
+                return [".ret (some (.addrGlob %s))" % lstr("&" + s[1][1])]   # a struct returned by value: represented by its address
             p, v = self.rv(s[1])
             return p + [".ret (some (%s))" % v]
         if k == "break":
@@ -1396,6 +1407,19 @@ def address_taken(t):
     return out
 
 
+def dot_locals(t):
+    """locals used as `x.member` (by-value structs), transparent-union members `_x` excepted"""
+    out = []
+    if isinstance(t, tuple) and len(t) == 4 and t[0] == "member" and t[3] is False and isinstance(t[1], tuple) and t[1][0] == "id" \
+            and not t[2].startswith("_"):
+        out.append(t[1][1])
+    if isinstance(t, (tuple, list)):
+        for x in t:
+            if isinstance(x, (tuple, list)):
+                out += dot_locals(x)
+    return out
+
+
 def declmacro_names(t):
     out = []
     if isinstance(t, tuple) and t and t[0] == "declmacro":
@@ -1440,6 +1464,9 @@ UNITS = [
      [("smp_mb_master", "src/urcu.c"), ("wait_gp", "src/urcu.c"), ("wait_for_readers", "src/urcu.c"), ("synchronize_rcu", "src/urcu.c")]),
     ("qsbr.", (), ("src/urcu-qsbr.c",), ["src/urcu-qsbr.c", "src/urcu-wait.h"],
      [("wait_gp", "src/urcu-qsbr.c"), ("wait_for_readers", "src/urcu-qsbr.c"), ("urcu_qsbr_synchronize_rcu", "src/urcu-qsbr.c")]),
+    ("poll.", (), ("src/urcu-poll-impl.h",), ["src/urcu-poll-impl.h"],
+     [("urcu_poll_worker_cb", "src/urcu-poll-impl.h"), ("start_poll_synchronize_rcu", "src/urcu-poll-impl.h"),
+      ("poll_state_synchronize_rcu", "src/urcu-poll-impl.h")], ("call_rcu",)),
     ("bp.", (), ("src/urcu-bp.c",), ["src/urcu-bp.c"],
      [("smp_mb_master", "src/urcu-bp.c"), ("wait_for_readers", "src/urcu-bp.c"), ("urcu_bp_synchronize_rcu", "src/urcu-bp.c")]),
 ]
@@ -1457,8 +1484,9 @@ def main():
     errors = []
     trs = []
     seen_defs = {}
-    for prefix, defines, own, extra, roots in UNITS:
-        tr = Translator(defines, own, prefix, SEARCH + [f for f in extra if f not in SEARCH], consts)
+    for unit in UNITS:
+        prefix, defines, own, extra, roots = unit[:5]
+        tr = Translator(defines, own, prefix, SEARCH + [f for f in extra if f not in SEARCH], consts, unit[5] if len(unit) > 5 else ())
         tr.consts = dict(consts)
         for name, f in roots:
             try:
